@@ -30,6 +30,23 @@ deriving Repr, Inhabited
 
 abbrev Arena := List Node
 
+mutual
+/-- a printable, injective rendering (used to state concrete examples: `Item` is a nested
+    inductive without a derived `DecidableEq`) -/
+def Item.key : Item → String
+  | .node id => "n" ++ toString id
+  | .str s => "'" ++ s ++ "'"
+  | .none => "N"
+  | .other b => if b then "o1" else "o0"
+  | .tup xs => "(" ++ Item.keyL xs ++ ")"
+  | .lst xs => "[" ++ Item.keyL xs ++ "]"
+def Item.keyL : List Item → String
+  | [] => ""
+  | x :: xs => Item.key x ++ " " ++ Item.keyL xs
+end
+
+def Node.key (nd : Node) : Nat × String × Option Nat := (nd.cls, Item.keyL nd.children, nd.parent)
+
 /-! ## `_set_parent` -/
 
 mutual
